@@ -405,8 +405,12 @@ def _mask_shape(an, m, data, secret):
             isinstance(e.func, ast.Attribute) and \
             e.func.attr == 'replace' and src(e.func.value) == data and \
             len(e.args) == 2 and \
-            src(e.args[0]) in (secret, secret + '.encode()') and \
-            isinstance(e.args[1], ast.Constant)
+            src(e.args[0]) in (secret, secret + '.encode()') and (
+                isinstance(e.args[1], ast.Constant) or (
+                    isinstance(e.args[1], ast.Call) and
+                    isinstance(e.args[1].func, ast.Attribute) and
+                    e.args[1].func.attr == 'encode' and
+                    isinstance(e.args[1].func.value, ast.Constant)))
     no_secret = an.branch_nodes(
         m, lambda e: isinstance(e, ast.Name) and e.id == secret, False)
     rets = [r for r in mc.nodes.values() if r.kind == 'return']
